@@ -3,10 +3,14 @@
 //! the specification.
 
 mod errclass;
+mod exec;
 mod mnemonic;
 mod queue;
 mod status;
 mod util;
+
+#[global_allocator]
+static GLOBAL: exec::CountingAlloc = exec::CountingAlloc;
 
 fn main() {
     let args: Vec<String> = std::env::args().skip(1).collect();
@@ -14,6 +18,7 @@ fn main() {
     let rest = &args[1.min(args.len())..];
     let code = match cmd {
         "errclass-rows" => errclass::rows(rest),
+        "exec-replay" => exec::replay(rest),
         "mnem-replay" => mnemonic::replay(rest),
         "mnem-rows" => mnemonic::rows(rest),
         "queue-edges" => queue::replay_edges(rest),
